@@ -84,6 +84,14 @@ def analyse(prog, lines):
     completed_idx = {}       # container -> index of the latest write whose call has returned
     fresh_bound = {}         # (tid, k) -> completed_idx at the start of the command
     rets = {}
+    # happens-before views (for runs with stale reads): per location the modification order with the view each
+    # write releases, per thread the newest write of each location that happens-before its next step
+    hb_hist = {}             # loc -> list of [value, released view]
+    hb_view = {}             # tid -> {loc: index}
+    view_at_cmd = {}         # (tid, k) -> view of the thread when the command started
+    stale_in_cmd = set()     # (tid, k): the command read a storage with a stale value
+    ACQ = ("Acquire", "AcqRel", "SeqCst")
+    REL = ("Release", "AcqRel", "SeqCst")
     complete = not any(e.kind in ("DEADLOCK", "LIMIT", "REPLAY-DIVERGED", "SOLO-DONE", "SOLO-LIMIT", "SOLO-BLOCKED") for e in evs)
     max_load_steps = 0
     for e in evs:
@@ -122,12 +130,49 @@ def analyse(prog, lines):
             cur_cmd[t] = k
             hist_pos_at_cmd[(t, k)] = {c: len(hist[c]) - 1 for c in hist}
             fresh_bound[(t, k)] = dict(completed_idx)
+            view_at_cmd[(t, k)] = dict(hb_view.get(t, {}))
             steps_in_cmd[(t, k)] = 0
             nodeget_steps[(t, k)] = 0
         elif e.kind == "ACC":
             k = cur_cmd.get(t)
             steps_in_cmd[(t, k)] = steps_in_cmd.get((t, k), 0) + 1
             loc, op, old, new, ok = e.f[0], e.f[1], e.f[4], e.f[5], e.f[6]
+            # views: which write this access reads / appends, what it acquires and releases
+            hh = hb_hist.setdefault(loc, [[old, {}]])
+            tv = hb_view.setdefault(t, {})
+            hlast = len(hh) - 1
+            if op == "load" or (op in ("cas", "casw") and ok != "1"):
+                oo = e.f[2] if op == "load" else e.f[3]
+                if old == hh[hlast][0]:
+                    ri = hlast
+                else:
+                    cand = [j for j in range(tv.get(loc, 0), len(hh)) if hh[j][0] == old]
+                    if cand:
+                        ri = cand[0]
+                    else:
+                        # the first read of the fast path is answered with arbitrary older values (the code does not trust
+                        # it, Stale.v proves that any value is harmless): no write to name, the view stays
+                        ri = tv.get(loc, 0)
+                    if loc.startswith("S") and not loc.startswith("SL"):
+                        stale_in_cmd.add((t, k))
+                tv[loc] = max(tv.get(loc, 0), ri)
+                if oo in ACQ:
+                    for kk, vv in hh[ri][1].items():
+                        if tv.get(kk, 0) < vv:
+                            tv[kk] = vv
+            else:
+                rmw = op != "store"
+                if rmw and e.f[2] in ACQ:
+                    for kk, vv in hh[hlast][1].items():
+                        if tv.get(kk, 0) < vv:
+                            tv[kk] = vv
+                tv[loc] = len(hh)
+                mv = dict(hh[hlast][1]) if rmw else {}      # a read-modify-write continues the release sequence
+                if e.f[2] in REL:
+                    for kk, vv in tv.items():
+                        if mv.get(kk, 0) < vv:
+                            mv[kk] = vv
+                hh.append([new, mv])
             if loc == "HEAD" or loc.startswith("IU") and op in ("cas", "swap") or \
                (loc.startswith("IU") and op == "load" and e.f[2] == "Acquire") or \
                (loc.startswith("WR") and op == "load"):
@@ -151,6 +196,11 @@ def analyse(prog, lines):
             if len(e.f) > 2 and e.f[2] != "?":
                 addr = int(e.f[2])
             rets[(t, k)] = (kind, addr)
+            if name == "join":
+                tv = hb_view.setdefault(t, {})
+                for kk, vv in hb_view.get(int(cmd[1]), {}).items():
+                    if tv.get(kk, 0) < vv:
+                        tv[kk] = vv
             for (wc, wold, wnew) in writes_by_cmd.get((t, k), []):
                 # the write of this (now returned) call is "completed"
                 for j in range(len(hist[wc]) - 1, 0, -1):
@@ -164,14 +214,18 @@ def analyse(prog, lines):
             if name == "cacheload" and addr is not None and int(cmd[1]) in cache_idx:
                 cc, last = cache_idx[int(cmd[1])]
                 oid = oid_at.get(addr) if addr else None
-                lo = max(last, fresh_bound.get((t, k), {}).get(cc, 0))
+                if (t, k) in stale_in_cmd:
+                    # the revalidating read was stale: freshness is owed only to what happens-before the call
+                    lo = max(last, view_at_cmd.get((t, k), {}).get("S%d" % cc, 0))
+                else:
+                    lo = max(last, fresh_bound.get((t, k), {}).get(cc, 0))
                 js = [j for j in range(len(hist[cc])) if hist[cc][j] == (addr, oid)]
                 if not js:
                     findings.append(("C16", "thread %d cmd %d (%s) returned (%d, object %s) which was never stored in container %d" % (t, k, " ".join(cmd), addr, oid, cc)))
                 elif not [j for j in js if j >= last]:
                     findings.append(("C16", "thread %d cmd %d (%s) went backwards: returned write #%s of container %d after having returned write #%d" % (t, k, " ".join(cmd), js, cc, last)))
                 elif not [j for j in js if j >= lo]:
-                    findings.append(("C16", "thread %d cmd %d (%s) returned write #%s of container %d although write #%d had completed before the call" % (t, k, " ".join(cmd), js, cc, lo)))
+                    findings.append(("C16", "thread %d cmd %d (%s) returned write #%s of container %d although write #%d had completed before the call%s" % (t, k, " ".join(cmd), js, cc, lo, " and happens-before it (stale revalidation)" if (t, k) in stale_in_cmd else "")))
                 else:
                     cache_idx[int(cmd[1])] = (cc, min(j for j in js if j >= lo))
             # C03/C12: loads return a value stored in this container within the call's interval
@@ -298,16 +352,25 @@ def analyse(prog, lines):
     destructor_panic = any(e.kind == "DESTRUCTOR-PANIC" for e in evs)
     # which commands were running when a destructor panicked (the thread that did the last decrement)
     panic_cmds = set()
+    removed_in_cmd = {}
+    d6_removed = set()
     cur_cmd = {}
     for e in evs:
         if e.kind == "CMD" and e.tid is not None:
             cur_cmd[e.tid] = int(e.f[0])
+        elif e.kind == "ACC" and e.tid is not None and e.f[0].startswith("S") and not e.f[0].startswith("SL") \
+                and e.f[1] in ("swap", "cas", "casw") and e.f[6] == "1":
+            removed_in_cmd.setdefault((e.tid, cur_cmd.get(e.tid)), []).append(int(e.f[4]))
         elif e.kind == "DESTRUCTOR-PANIC" and e.tid is not None:
             try:
                 panic_cmds.add(prog["threads"][e.tid][cur_cmd.get(e.tid, 0)][0])
             except (IndexError, KeyError):
                 panic_cmds.add("?")
-    # known finding D6 is about WRITERS (the walk of Debt::pay_all inside swap/store/compare_and_swap/rcu)
+            # the values the panicking command had removed from containers before the panic: the walk it was in
+            # (Debt::pay_all) is on behalf of the last of them
+            d6_removed.update(removed_in_cmd.get((e.tid, cur_cmd.get(e.tid)), [])[-1:])
+    # known finding D6 is about WRITERS: the panic unwinds out of the walk of Debt::pay_all that follows the exchange
+    # of swap/store/compare_and_swap/rcu, and what leaks is the reference of the value that exchange removed
     panic_in_writer_only = bool(panic_cmds) and panic_cmds <= {"store", "swap", "cas", "rcu", "cinto", "cdrop"}
     if destructor_panic:
         # C18: whatever else goes wrong in a run with a panicking destructor is a C18 finding too
@@ -360,7 +423,7 @@ def analyse(prog, lines):
                 elif have != expect:
                     findings.append(("C02", "object at %d has count %d at quiescence, owners say %d (stores %d + owned %d + guards %d - unpaid slots %d)" % (
                         a, have, expect, stores.get(a, 0), owned.get(a, 0), guards.get(a, 0), slots.get(a, 0))))
-                    if destructor_panic and have == expect + 1 and panic_in_writer_only:
+                    if destructor_panic and have == expect + 1 and panic_in_writer_only and a in d6_removed:
                         # known finding D6: a destructor panicking inside a writer's slot walk leaks the removed value's reference
                         findings.append(("C18", "after a pointee destructor panicked inside an operation the count of the value at %d is %d although its owners say %d: the reference of the value the writer removed is leaked" % (a, have, expect), "D6-destructor-panic-leak"))
                     elif destructor_panic:
